@@ -34,10 +34,14 @@ def nontrivial(spec):
 def long_frame_cases(ctx):
     """Frames whose row numbers cross the 1/2/4-byte forms of the frame number (127/128, 16383/16384)."""
     rows_list = [130, 16390] if ctx.tier == 'quick' else [127, 128, 129, 200, 16383, 16384, 16385, 16500, 33000]
-    for k, rows in enumerate(rows_list):
+    plan = [(rows, {'ics': 5000} if rows > 1000 else {}) for rows in rows_list]
+    # hundreds of rows through the other data routes in chunks that do not divide powers of two
+    plan += [(300, {'source': 'hdf5', 'ics': 100}), (700, {'source': 'dict', 'ics': 250}),
+             (300, {'source': 'struct', 'ics': 7}), (700, {'source': 'hdf5', 'ics': 50, 'from': 5, 'to': 690})]
+    for k, (rows, w) in enumerate(plan):
         if k % ctx.nshards != ctx.shard:
             continue
-        yield {'kind': 'spec', 'sul': {'vrl': 8192}, 'write': {'ics': 5000} if rows > 1000 else {},
+        yield {'kind': 'spec', 'sul': {'vrl': 8192}, 'write': w,
                'lfs': [{'hdr': {}, 'ops': [
                    {'t': 'origin', 'name': 'O', 'attrs': {'file_set_number': {'v': 3, 'r': 'kw'},
                                                           'creation_time': {'v': {'$dt': '2012-12-12T12:12:12', 'tz': 0},
